@@ -57,7 +57,7 @@ static long ndet(int tier)
 static long ngeq(void);
 static long count(int tier)
 {
-    return ndet(tier) + 8 + ngeq() + 6;	/* + one ensemble case per type
+    return ndet(tier) + 8 + ngeq() + 6 + 24;	/* + one ensemble case per type
 					   + the p-value scale cases */
 }
 
@@ -67,6 +67,7 @@ static vf_errlog elog;
    system is over-determined */
 static int g_net = 2;	/* error-network family member used by scenarios */
 static double g_slope_nf, g_slope_tr;	/* frequency dependence of sigma */
+static double g_tight_tol;	/* run_cal: both tolerances of the iteration */
 static int g_predeclare;	/* run_cal: a different model is declared first */
 static int g_curve;	/* sigma is a curved function of frequency */
 
@@ -300,6 +301,12 @@ static void run_cal(cs_scenario *sc, bool model, int gk, double snf,
 		    elog.count ? elog.msg[0] : "");
 	    goto out;
 	}
+    }
+    if (g_tight_tol != 0.0 &&
+	    (vnacal_new_set_et_tolerance(vnp, g_tight_tol) != 0 ||
+	     vnacal_new_set_p_tolerance(vnp, g_tight_tol) != 0)) {
+	o->rc = -4;
+	goto out;
     }
     vf_errlog_reset(&elog);
     errno = 0;
@@ -1140,9 +1147,173 @@ done:
     vf_exec_end(r, mark);
 }
 
+/*
+ * T and U formulations judge the same data alike.  Weighted by their V
+ * matrices, the residuals of both are the differences between the measured
+ * values and those the error terms predict, so the same 2x2 data give the
+ * same chi-square whether the calibration is T8 or U8, TE10 or UE10, T16 or
+ * U16 (and E12 or UE14): the displacement of one standard's reading at
+ * which the solve begins to be rejected is the same for both.
+ */
+#define NPTU_PAIR 6
+#define NPTU (NPTU_PAIR * 2 * 2)
+#define PTU_TOL 1e-4
+static int ptu_threshold(cs_scenario *sc, double snf, double str,
+	double alpha, double *thr, vf_result *r, char *why, size_t wn)
+{
+    static res_t o;
+    double lo = 0.0, hi = 100.0;
+
+    sc->sigma_nf = snf;
+    sc->sigma_tr = str;
+    sc->displace_sigmas = lo;
+    run_cal(sc, true, 0, snf, str, false, alpha, &o, r);
+    if (o.rc != 0) {
+	snprintf(why, wn, "exact data not accepted: rc %d errno %d %s", o.rc,
+		o.err_no, o.msg);
+	return -1;
+    }
+    sc->displace_sigmas = hi;
+    run_cal(sc, true, 0, snf, str, false, alpha, &o, r);
+    if (!(o.rc == -1 && o.err_no == EDOM)) {
+	snprintf(why, wn, "a standard off by 100 sigma not rejected: rc %d "
+		"errno %d %s", o.rc, o.err_no, o.msg);
+	return 1;
+    }
+    for (int it = 0; it < 34; ++it) {
+	double mid = 0.5 * (lo + hi);
+	sc->displace_sigmas = mid;
+	run_cal(sc, true, 0, snf, str, false, alpha, &o, r);
+	if (o.rc == 0)
+	    lo = mid;
+	else if (o.rc == -1 && o.err_no == EDOM)
+	    hi = mid;
+	else {
+	    snprintf(why, wn, "solve failed for another reason at %g sigma: "
+		    "rc %d errno %d %s", mid, o.rc, o.err_no, o.msg);
+	    return -1;
+	}
+    }
+    *thr = 0.5 * (lo + hi);
+    return 0;
+}
+
+static void run_ptu(long idx, vf_result *r)
+{
+    static const vnacal_type_t pair[NPTU_PAIR][2] = {
+	{ VNACAL_T8, VNACAL_U8 }, { VNACAL_TE10, VNACAL_UE10 },
+	{ VNACAL_T16, VNACAL_U16 }, { VNACAL_E12, VNACAL_UE14 },
+	/* one driven port: the column system is the whole calibration */
+	{ VNACAL_UE10, VNACAL_UE14 }, { VNACAL_UE10, VNACAL_E12 } };
+    static cs_scenario a, b;
+    int pi = vf_digit(&idx, NPTU_PAIR);
+    const int cols = pi >= 4 ? 1 : 2;
+    int which = vf_digit(&idx, 2);
+    int tr = vf_digit(&idx, 2);
+    const double snf = 1e-5, str = tr ? 2e-4 : 0.0, alpha = 1e-3;
+    double ta = 0, tb = 0;
+    char why[300], sig[120];
+    unsigned long mark = vf_exec_begin();
+
+    vf_desc(r, "%s and %s 2x%d on the same instrument and data, noise floor "
+	    "1e-5%s: number of sigma by which the %s standard's reading is "
+	    "off when the solve begins to be rejected at significance 1e-3",
+	    vnacal_type_to_name(pair[pi][0]), vnacal_type_to_name(pair[pi][1]),
+	    cols, tr ? ", tracking 2e-4" : "", which ? "last" : "first");
+    if (make_scenario(&a, pair[pi][0], 2, cols, 0, 1) != 0 ||
+	    make_scenario(&b, pair[pi][1], 2, cols, 0, 1) != 0) {
+	vf_outcome(r, "no-such-recipe");
+	goto done;
+    }
+    /* one more standard, far from reciprocal: what transposes the S
+       matrix of a standard shows here */
+    for (int k = 0; k < 2; ++k) {
+	static const double complex nr[4] = { 0.10 + 0.05 * I,
+	    0.05 + 0.02 * I, 0.70 - 0.30 * I, -0.20 + 0.10 * I };
+	cs_scenario *sc = k ? &b : &a;
+	cs_std *st;
+	if (sc->nstd + 1 > CS_MAXSTD || sc->nparam + 4 > CS_MAXPARAM)
+	    continue;
+	st = &sc->std[sc->nstd];
+	memset(st, 0, sizeof(*st));
+	st->entry = CSE_LINE; st->np = 2; st->port[0] = 1; st->port[1] = 2;
+	st->null_map = true;
+	st->id = sc->nstd + 1;
+	for (int c = 0; c < 4; ++c) {
+	    cs_param q;
+	    memset(&q, 0, sizeof(q));
+	    q.kind = CSP_SCALAR; q.c0 = nr[c]; q.handle = -1;
+	    sc->param[sc->nparam] = q;
+	    st->sp[c] = sc->nparam++;
+	}
+	++sc->nstd;
+    }
+    /* the same physical instrument */
+    b.vna = a.vna;
+    b.vna.type = pair[pi][1];
+    if (a.nstd != b.nstd) {
+	vf_outcome(r, "ptu n/a: the recipes differ");
+	goto done;
+    }
+    for (int k = 0; k < 2; ++k) {
+	cs_scenario *sc = k ? &b : &a;
+	long double margin; int eqs, unk;
+	if (!cs_identifiable(sc, (1u << sc->nstd) - 1u, &margin, &eqs, &unk)
+		|| margin < 1e-4L || eqs <= unk) {
+	    vf_outcome(r, "ptu skipped: not over-determined/determining");
+	    goto done;
+	}
+	sc->displace_id = sc->std[which ? sc->nstd - 1 : 0].id;
+    }
+    g_tight_tol = 1e-11;	/* the weights iterated to the end */
+    {
+	int ra = ptu_threshold(&a, snf, str, alpha, &ta, r, why, sizeof(why));
+	if (ra != 0) {
+	    if (ra < 0) {
+		snprintf(sig, sizeof(sig), "ptu-solve:%s",
+			vnacal_type_to_name(pair[pi][0]));
+		vf_fail(r, sig, "%s", why);
+	    } else
+		vf_outcome(r, "ptu n/a: %s", why);
+	    goto done;
+	}
+	int rb = ptu_threshold(&b, snf, str, alpha, &tb, r, why, sizeof(why));
+	if (rb != 0) {
+	    if (rb < 0) {
+		snprintf(sig, sizeof(sig), "ptu-solve:%s",
+			vnacal_type_to_name(pair[pi][1]));
+		vf_fail(r, sig, "%s", why);
+	    } else
+		vf_outcome(r, "ptu n/a: %s", why);
+	    goto done;
+	}
+    }
+    vf_note("thresholds %.8g and %.8g sigma (relative difference %.3e)", ta,
+	    tb, fabs(ta - tb) / ta);
+    if (!(fabs(ta - tb) <= PTU_TOL * ta)) {
+	snprintf(sig, sizeof(sig), "ptu-differs:%s",
+		vnacal_type_to_name(pair[pi][0]));
+	vf_fail(r, sig, "the same data begin to be rejected at %.6g sigma "
+		"as %s and at %.6g sigma as %s", ta,
+		vnacal_type_to_name(pair[pi][0]), tb,
+		vnacal_type_to_name(pair[pi][1]));
+	goto done;
+    }
+    r->nontrivial = 1;
+    vf_outcome(r, "ptu ok %s", fabs(ta - tb) <= 1e-4 * ta ? "<1e-4" :
+	    fabs(ta - tb) <= 1e-3 * ta ? "<1e-3" : "<tol");
+done:
+    g_tight_tol = 0.0;
+    vf_exec_end(r, mark);
+}
+
 static void run(int tier, long idx, vf_result *r)
 {
     long nd = ndet(tier);
+    if (idx >= nd + 8 + ngeq() + 6) {
+	run_ptu(idx - nd - 8 - ngeq() - 6, r);
+	return;
+    }
     if (idx >= nd + 8 + ngeq()) {
 	run_pscale(idx - nd - 8 - ngeq(), r);
 	return;
